@@ -561,6 +561,15 @@ def _parse_node_for_arg(_required, action, choices, node, typ):
     :returns: _required, action, choices, typ
     :rtype: ```Tuple[bool, Optional[str], Optional[List[str]], Optional[str]]```
     """
+    if (
+        isinstance(node, Subscript)
+        and getattr(node.value, "id", None) == "Literal"
+        and isinstance(node.slice if PY_GTE_3_9 else node.slice.value, (Constant, Str))
+    ):
+        # `Literal['a']`: a single member is not wrapped in a tuple
+        node = Tuple(
+            elts=[node.slice if PY_GTE_3_9 else node.slice.value], ctx=Load(), expr=None
+        )
     if isinstance(node, Tuple):
         maybe_choices = tuple(
             get_value(elt) for elt in node.elts if isinstance(elt, (Constant, Str))
@@ -578,7 +587,7 @@ def _parse_node_for_arg(_required, action, choices, node, typ):
             _required = False
         elif node.id in simple_types:
             typ = node.id
-        elif node.id not in frozenset(("Union",)):
+        elif node.id not in frozenset(("Union", "Literal")):
             typ = FALLBACK_TYP
         if node.id == "List":
             action = "append"
